@@ -29,6 +29,8 @@ func vAsFloat(x Sexp) (float64, bool) {
 		return float64(t.Val), true
 	case *SexpFloat:
 		return t.Val, true
+	case *SexpUint64:
+		return float64(t.Val), true
 	}
 	return 0, false
 }
@@ -64,6 +66,13 @@ func vRefCompare(op string, a, b Sexp) (res bool, ok bool) {
 		return false, false
 	}
 	{
+		// comparing a uint64 with a float (either side) is not specified
+		if _, isU := a.(*SexpUint64); isU {
+			return false, false
+		}
+		if _, isU := b.(*SexpUint64); isU {
+			return false, false
+		}
 		fa, oka := vAsFloat(a)
 		fb, okb := vAsFloat(b)
 		if !oka || !okb {
@@ -137,8 +146,8 @@ func vh_C07_arith() {
 	env := NewZlispSandbox()
 	ka := vChoice("kindA", 4)
 	kb := vChoice("kindB", 4)
-	if (ka == 1) != (kb == 1) {
-		vDone() // mixing uint64 with other kinds is not specified by the statement
+	if (ka == 1) != (kb == 1) && ka != 3 && kb != 3 {
+		vDone() // mixing uint64 with int or char is not specified by the statement; with a float it is float64 arithmetic
 	}
 	a := vNum(ka, "a")
 	b := vNum(kb, "b")
@@ -293,9 +302,9 @@ func vh_C07_div() {
 // vh_C07_divfloat: mixed integer/float division is carried out in float64.
 func vh_C07_divfloat() {
 	env := NewZlispSandbox()
-	ka := vChoice("kindA", 3)
-	kb := vChoice("kindB", 3)
-	kinds := []int{0, 2, 3}
+	ka := vChoice("kindA", 4)
+	kb := vChoice("kindB", 4)
+	kinds := []int{0, 2, 3, 1}
 	if kinds[ka] != 3 && kinds[kb] != 3 {
 		vDone()
 	}
